@@ -226,6 +226,17 @@ func (sc scen) run() {
 		vsched.Go("device"+tag, func() {
 			dev.ProcessEvents(in)
 			vsched.Observe("processevents-returned"+tag, true)
+			if !sc.two { // "leaves no background activity behind": nothing the device code started is still alive now
+				var left []string
+				for _, l := range vsched.Unfinished() {
+					if strings.Contains(l, ".go:") && !strings.Contains(l, "main.go:") {
+						left = append(left, l)
+					}
+				}
+				if len(left) > 0 {
+					vsched.Observe("left-behind", strings.Join(left, ", "))
+				}
+			}
 		})
 		vsched.Go("feeder"+tag, func() {
 			for _, e := range evs {
@@ -319,6 +330,12 @@ func (sc scen) check(solo map[string][]string) func(x *vsched.Execution) []vsche
 				vs = append(vs, vsched.Violation{"termination-not-prompt", "device" + tag, fmt.Sprintf("device %s: %v of (virtual) time passed between the end of its event stream and the return of ProcessEvents", tag, retAt-closedAt)})
 			}
 		}
+		for _, o := range x.Obs {
+			if o.Kind == "left-behind" {
+				vs = append(vs, vsched.Violation{"background-activity-left-behind", strings.SplitN(fmt.Sprint(o.Val), "@", 2)[0], fmt.Sprintf("ProcessEvents has returned but threads it started are still alive: %v", o.Val)})
+				break
+			}
+		}
 		if sc.rgb {
 			last := ""
 			for _, o := range x.Obs {
@@ -372,6 +389,8 @@ func scenarios(tier string) []scen {
 	s = append(s, scen{name: "openrgb connected, the process stalls for 6 s at some point", events: two[:1], rgb: true, stall: true, pace: 1, dBound: -1},
 		scen{name: "no-openrgb, the process stalls for 6 s at some point", events: two[:1], stall: true, pace: 1, dBound: -1})
 	s = append(s, scen{name: "openrgb connected but no controller matches the device", events: two[:1], rgb: true, noMatch: true, pace: 1, dBound: -1})
+	// the 129-message panic burst through a slow (capacity 1) output, then the device goes away
+	s = append(s, scen{name: "no-openrgb, panic through a slow output, then disconnect", events: []*input.InputEvent{key("KEY_ESC", 1)}, dBound: -1})
 	// environment faults: the LED server refuses / drops up to two calls, or goes away for good, at every possible call
 	s = append(s, scen{name: "openrgb with faults (<=2 failing calls or server gone), press + release", events: []*input.InputEvent{key("KEY_A", 1), key("KEY_A", 0)}, rgb: true, faults: 2, pace: 2, dBound: -2})
 	if tier == "thorough" {
